@@ -379,6 +379,13 @@ pub fn c16_pins() -> Vec<C16Pin> {
         C16Pin { name: "absurd_subscript", src: || "superchip unsigned char sc[16];\nunsigned char b;\nvoid main() { b = sc[2147483647]; }\n".into(), argv_extra: &[] },
         C16Pin { name: "if_continue_in_switch", src: || "unsigned char a;\nvoid main() { switch (a) { case 1: if (a) continue; } }\n".into(), argv_extra: &[] },
         C16Pin { name: "banked_call_without_rom_select", src: || "unsigned char a;\nbank1 void f() { a = 1; }\nvoid main() { f(); }\n".into(), argv_extra: &["-D__3E__"] },
+        C16Pin { name: "macro_applied_to_its_own_name", src: || "#define G(f) f(f)\n#define H(f) f(f) + 1\nunsigned char a;\nvoid main() { a = G(G); a = H(H); }\n".into(), argv_extra: &[] },
+        C16Pin { name: "address_offset_overflow", src: || "const char arr[4] = {1, 2, 3, 4};\nchar *p; unsigned char r;\nvoid main() { r = (arr >> 8) + 16777216; p = arr + 2147483647 + 1; }\n".into(), argv_extra: &[] },
+        C16Pin { name: "pointer_initialiser_offset_overflow", src: || "const char arr[4] = {1, 2, 3, 4};\nconst char *p = arr - -2147483648;\nconst char *t[2] = {arr - -2147483648, arr};\nvoid main() { }\n".into(), argv_extra: &[] },
+        C16Pin { name: "insert_code_multibyte_character", src: || "unsigned char r;\nvoid main() {\n r='\u{20ac}'+'\u{20ac}';\n r = 2;\n}\n".into(), argv_extra: &["--insert-code"] },
+        C16Pin { name: "insert_code_truncation_inside_character", src: || { let mut l = "r = 1; ".repeat(36); l.truncate(251); format!("unsigned char r;\nvoid main() {{\n{} r='\u{20ac}'; r = 3;\n r = 2;\n}}\n", l) }, argv_extra: &["--insert-code"] },
+        C16Pin { name: "inline_function_calling_itself", src: || "unsigned char a, n;\ninline void f() { for (n = 0; n != 3; n++) { a++; } if (a != 9) f(); }\nvoid main() { f(); }\n".into(), argv_extra: &[] },
+        C16Pin { name: "header_including_itself", src: || { let d = "/verif/work/c16inc"; let _ = std::fs::create_dir_all(d); let _ = std::fs::write(format!("{}/selfinc.h", d), "#include \"selfinc.h\"\nunsigned char q;\n"); "#include \"selfinc.h\"\nvoid main() {}\n".into() }, argv_extra: &["-I", "/verif/work/c16inc"] },
         // recorded finding
         C16Pin { name: "deep_blocks_5000", src: || nesting(1, 5000), argv_extra: &[] },
     ]
